@@ -300,7 +300,7 @@ pub fn compile(h: &History) -> DocSpec {
             trailer.push(("Encrypt".to_string(), Val::r(e.enc_obj)));
         }
         if r.info {
-            slots.insert(next, Slot::Direct { gen: 0, body: Body::Plain(Val::dict(vec![("Title", Val::Str(marker.clone()))])) });
+            slots.insert(next, Slot::Direct { gen: 0, body: Body::Plain(Val::dict(vec![("Title", Val::Str(marker.clone())), ("CreationDate", Val::Str(INFO_DATES[ri % INFO_DATES.len()].to_vec())), ("ModDate", Val::Str(INFO_DATES[(ri + 3) % INFO_DATES.len()].to_vec()))])) });
             trailer.push(("Info".to_string(), Val::r(next)));
             next += 1;
         }
@@ -337,6 +337,10 @@ fn gen_member_val(rng: &mut Rng, depth: usize) -> Val {
         _ => Val::Dict((0..rng.usize(4)).map(|i| (format!("K{}", i), gen_member_val(rng, depth - 1))).filter(|(_, v)| *v != Val::Null).collect()),
     }
 }
+
+/// dates of the /Info dictionaries (revision k takes the k-th and the k+3rd): every form of the
+/// time zone the specification allows
+const INFO_DATES: [&[u8]; 7] = [b"D:20200102030405+00'00'", b"D:20210304050607-00'00'", b"D:20220506070809Z", b"D:20230708091011+01'30'", b"D:20240910111213-08'00'", b"D:2019", b"D:20180203040506Z00'00'"];
 
 pub fn gen_history(rng: &mut Rng, tier: Tier) -> History {
     // now and then a small document with a long life: more sections than object numbers (every
